@@ -51,6 +51,14 @@ def main():
                 chk("fft2-backward-norm", fft_manager.fft2(A, norm="backward"), dft2(A, -1, 1.0))
                 chk("ifft2-forward-norm", fft_manager.ifft2(A, norm="forward"), dft2(A, +1, 1.0))
                 chk("ifft2-backward-norm", fft_manager.ifft2(A, norm="backward"), dft2(A, +1, 1.0 / N))
+                Rr = rng.normal(size=(2, ny, nx))          # real input (the solver transforms a real padded source)
+                chk("fft2-real-input-forward", fft_manager.fft2(Rr, norm="forward"), dft2(Rr.astype(complex), -1, 1.0 / N))
+                chk("fft2-real-input-2d", fft_manager.fft2(Rr[0], norm="forward"), dft2(Rr[0].astype(complex), -1, 1.0 / N))
+                chk("ifft2-real-input", fft_manager.ifft2(Rr[0], norm="forward"), dft2(Rr[0].astype(complex), +1, 1.0))
+                # batch of levels: every slice is transformed independently (no aliasing between levels)
+                B3 = fft_manager.fft2(A, norm="backward")
+                chk("fft2-batch-slices-independent", B3[1], fft_manager.fft2(A[1].copy(), norm="backward"))
+                chk("fft2-batch-slices-independent", B3[0], fft_manager.fft2(A[0].copy(), norm="backward"))
                 F = fft_manager.fft2(A[0], norm="forward")
                 chk("D1-dc-is-mean", F[0, 0], A[0].mean())
                 B = rng.normal(size=(ny, nx))
